@@ -524,3 +524,33 @@ def nested_donuts(rng, depth=3):
         a = b - M * rng.randint(1, 2)
         if a - 2 * M <= M: break
     return out
+
+
+def coverage_touching(rng):
+    """a valid polygonal coverage (cells of an irregular grid, every grid node a vertex of every cell around it) with removed cells
+    chosen so that gaps touch the outer boundary or each other at SINGLE vertices; every cell ring starts at a random vertex and
+    runs in a random direction, so the touching vertices are interior vertices of the boundary chains"""
+    nx, ny = rng.randint(3, 5), rng.randint(3, 5)
+    xs = sorted(rng.sample(range(0, 60, M), nx + 1)); ys = sorted(rng.sample(range(0, 60, M), ny + 1))
+    removed = set()
+    for _ in range(rng.randint(1, 2)):
+        i, j = rng.randint(0, nx - 1), rng.randint(0, ny - 1)
+        removed.add((i, j))
+        di, dj = rng.choice([(1, 1), (1, -1), (-1, 1), (-1, -1)])
+        if 0 <= i + di < nx and 0 <= j + dj < ny and rng.random() < 0.8:
+            removed.add((i + di, j + dj))           # diagonal neighbour: the two gaps share exactly one vertex
+    cells = []
+    for i in range(nx):
+        for j in range(ny):
+            if (i, j) in removed: continue
+            x0, x1, y0, y1 = xs[i], xs[i + 1], ys[j], ys[j + 1]
+            ring = [(x0, y0), (x1, y0), (x1, y1), (x0, y1)]
+            if rng.random() < 0.2:                   # split the cell along a diagonal (still node-matched)
+                parts = [[(x0, y0), (x1, y0), (x1, y1)], [(x0, y0), (x1, y1), (x0, y1)]]
+            else: parts = [ring]
+            for r in parts:
+                k = rng.randrange(len(r)); r = r[k:] + r[:k]
+                if rng.random() < 0.5: r = r[::-1]
+                cells.append([r + [r[0]]])
+    rng.shuffle(cells)
+    return cells
